@@ -1,100 +1,25 @@
 /-
-  The driver level of the score-range development: aspiration loop, iterative deepening, `go`.
-
-  `GoSane` is the one run-level hypothesis that cannot be discharged from laws about the components:
-  every window the aspiration loop RE-SEARCHES the root with is int16-safe (`RootWin`).  The first
-  window of every iteration is proved safe here; a widened one can leave the safe range only after
-  many consecutive re-searches of one iteration, because `factor` doubles each time in int16
-  (search.go:62-67) — e.g. previous score 9956, nine fail-lows, then a fail-high at beta = 10000 give
-  beta = 10000 + 512*44 = 32528, and `beta + 7*102` wraps, so that reverse futility pruning fires with
-  `staticEval < beta` at the root.  In-range scores alone do not exclude that sequence, so it is a
-  named hypothesis about the run.
+  The driver level of the score-range development (Proofs/SearchScoreGo.lean: aspiration loop, iterative
+  deepening, `go`, under the run-level hypothesis `GoSane`) guarded by the ghost flag `St.ttOut` instead
+  of `St.nmpOut`: the hypothesis on the run is "no out-of-band value was handed to a table store".
 -/
-import ChessVerif.Proofs.SearchFinal
+import ChessVerif.Proofs.SearchScoreRoot2
+import ChessVerif.Proofs.SearchScoreGo
 
 namespace ChessVerif
 namespace Search
 
-variable {σ π : Type} [PsInv σ] {t0 : Bool}
+variable {σ π : Type} [PsInv σ]
 
-/-- every window the aspiration loop of one iteration re-searches with is `RootWin`
-    (mirrors the recursion of `aspiration`). -/
-def aspSane (c : Comp σ π) (L : Limits) (fuel : Nat) (idD : Int) : Nat → Score → Score → Score → St σ → Prop
-  | 0, _, _, _, _ => True
-  | n + 1, alpha, beta, factor, s =>
-    let r := alphaBeta c L fuel alpha beta idD 0 .pv s
-    let inWindow := !(decide (r.1 ≤ alpha)) && !(decide (r.1 ≥ beta))
-    let alpha' := if r.1 ≤ alpha then wrapS16 (alpha - wrapS16 (factor * c.windowSize)) else alpha
-    let beta' := if r.1 ≤ alpha then beta else if r.1 ≥ beta then wrapS16 (beta + wrapS16 (factor * c.windowSize)) else beta
-    let factor' := if inWindow then factor else wrapS16 (factor * 2)
-    let as := abort L r.2
-    if as.1 then True
-    else if inWindow then True
-    else RootWin alpha' beta' ∧ aspSane c L fuel idD n alpha' beta' factor' as.2
-
-/-- the same for every iteration of `idLoop` (mirrors its recursion). -/
-def idSane (c : Comp σ π) (L : Limits) (clock : Clock) (fuel : Nat) : Nat → Int → IDVars → St σ → Prop
-  | 0, _, _, _ => True
-  | n + 1, idD, v, s =>
-    if !(idD < maxPlies && (decide (idD ≤ L.depth) || s.pondering)) then True
-    else
-    aspSane c L fuel idD fuel v.alpha v.beta 1 s ∧
-    match aspiration c L fuel idD fuel v.alpha v.beta 1 s with
-    | .aborted _ => True
-    | .ok _ _ sample s =>
-      let act := s.pv.active
-      let move := pickMove act v.move
-      let ponder := pickPonder act v.ponder
-      let pp := ponderPoll L s.pondering v.ppolls
-      let ppolls := pp.2
-      let s := s.setPondering pp.1
-      let sinceStart := (clock v.reads).1
-      let sinceBase := (clock v.reads).2
-      let out := if L.output then { depth := idD, full := true, score := sample, nodes := s.nodes, time := sinceStart,
-                                    hashfull := c.hashFull s.ps, pv := act } :: v.out else v.out
-      if move ≠ 0 ∧ softAbort L s.pondering sinceBase s.nodes then True
-      else
-        idSane c L clock fuel n (wrapS8 (idD + 1))
-          { alpha := wrapS16 (sample - c.windowSize), beta := wrapS16 (sample + c.windowSize), score := sample,
-            move := move, ponder := ponder, reads := v.reads + 1, ppolls := ppolls, out := out } s
-
-/-- `GoSane`: every re-searched root window of the run is int16-safe. -/
-def GoSane (c : Comp σ π) (L : Limits) (clock : Clock) (fuel : Nat) (e : Engine σ) (b : Board) (nodes0 : Int := 0) : Prop :=
-  idSane c L clock fuel 64 0
-    { alpha := -Inf - 1, beta := Inf + 1, score := 0, move := 0, ponder := 0, reads := 0, ppolls := 0, out := [] }
-    (goInit L e b nodes0)
-
-theorem rootWin_init : RootWin (-Inf - 1) (Inf + 1) := by decide
-
-/-- the first window of an iteration after an in-range score. -/
-theorem rootWin_first {sample w : Int} (hs : InR sample) (hw : 0 ≤ w ∧ w ≤ 100) :
-    RootWin (wrapS16 (sample - w)) (wrapS16 (sample + w)) := by
-  unfold InR at hs
-  unfold RootWin WinOK rfpSafe
-  rw [wrapS16_id (by omega) (by omega), wrapS16_id (by omega) (by omega)]; omega
-
-/-- iteration 0 searches the root by quiescence only: PV row 0 stays empty. -/
-theorem alphaBeta_depth0_row (c : Comp σ π) (L : Limits) {Good : Board → Prop} (hl : Laws c Good) (fuel : Nat)
-    (alpha beta : Score) (s : St σ) (hg : Good s.board) (hok : PsInv.ok s.ps) :
-    (alphaBeta c L fuel alpha beta 0 0 .pv s).2.pv.row 0 = [] := by
-  cases fuel with
-  | zero => exact setNull_row_self _ _
-  | succ fuel =>
-    simp only [alphaBeta]
-    rw [if_pos (Or.inl True.intro)]
-    have := quiescence_spec c L hl (fuel + 1) alpha beta 0 (s.setPv (s.pv.setNull (0 : Int).toNat)) hg hok
-    rw [this.2]
-    exact setNull_row_self _ _
-
-/-- what one iteration's aspiration loop establishes (guarded by the ghost flag, see `QRange`). -/
-theorem aspiration_score (c : Comp σ π) (L : Limits) {Good : Board → Prop} {TTok : σ → Prop} {μ : Board → Nat}
+/-- what one iteration's aspiration loop establishes (guarded by `ttOut`, see `QRange2`). -/
+theorem aspiration_score2 (c : Comp σ π) (L : Limits) {Good : Board → Prop} {TTok : σ → Prop} {μ : Board → Nat}
     (hl : Laws c Good) (sl : ScoreLaws c Good TTok μ) (fuel : Nat) (idD : Int) :
-    ∀ (n : Nat) (alpha beta factor : Score) (s : St σ), Good s.board → TTA TTok t0 s →
-      (s.nmpOut = false → RootWin alpha beta) →
+    ∀ (n : Nat) (alpha beta factor : Score) (s : St σ), Good s.board → TTA2 TTok s →
+      (s.ttOut = false → RootWin alpha beta) →
       aspSane c L fuel idD n alpha beta factor s →
-      TTA TTok t0 (aspiration c L fuel idD n alpha beta factor s).st ∧
+      TTA2 TTok (aspiration c L fuel idD n alpha beta factor s).st ∧
       (∀ s', aspiration c L fuel idD n alpha beta factor s = .aborted s' → s'.aborted = true) ∧
-      (∀ al be sa s', aspiration c L fuel idD n alpha beta factor s = .ok al be sa s' → s'.nmpOut = false →
+      (∀ al be sa s', aspiration c L fuel idD n alpha beta factor s = .ok al be sa s' → s'.ttOut = false →
         InR sa ∧ (idD = 0 → s'.pv.row 0 = []) ∧ (1 ≤ idD → RootOut' c.keys s.board s') ∧
         (1 ≤ idD → Final c.keys s.board → FinalScore c.keys s.board sa ∧ s'.pv.row 0 = [])) := by
   intro n
@@ -106,9 +31,9 @@ theorem aspiration_score (c : Comp σ π) (L : Limits) {Good : Board → Prop} {
   | succ n ih =>
     intro alpha beta factor s hg htt hw hs
     have hab := alphaBeta_spec c L hl fuel alpha beta idD 0 .pv s hg htt.1 (Int.le_refl 0)
-    have hrg := alphaBeta_range c L hl sl fuel alpha beta idD 0 .pv s hg (Int.le_refl 0) (by decide)
+    have hrg := alphaBeta_range2 c L hl sl fuel alpha beta idD 0 .pv s hg (Int.le_refl 0) (by decide)
       (fun hA => (hw hA).1) htt
-    have hroot := fun (hw' : RootWin alpha beta) (h1 : 1 ≤ idD) => alphaBeta_root' c L hl sl fuel alpha beta hw' idD h1 s hg htt
+    have hroot := fun (hw' : RootWin alpha beta) (h1 : 1 ≤ idD) => alphaBeta_root2 c L hl sl fuel alpha beta hw' idD h1 s hg htt
     have hfin := fun (hw' : RootWin alpha beta) (h1 : 1 ≤ idD) (hf : Final c.keys s.board) =>
       alphaBeta_final c L hl sl fuel alpha beta hw' idD h1 s hg htt.1 hf
     have hrow : idD = 0 → (alphaBeta c L fuel alpha beta idD 0 .pv s).2.pv.row 0 = [] := by
@@ -120,12 +45,11 @@ theorem aspiration_score (c : Comp σ π) (L : Limits) {Good : Board → Prop} {
     have haf := abort_frame L r.2
     have hap := (abort_pv L r.2).1
     have hps := abort_ps L r.2
-    have han := abort_nmpOut L r.2
-    have hatt := abort_ttOut L r.2
+    have han := abort_ttOut L r.2
     have hat := abort_true_iff L r.2
     have hfa := @abort_false σ _ L r.2
-    generalize abort L r.2 = as at haf hap hps han hatt hat hfa hs ⊢
-    have htt2 : TTA TTok t0 as.2 := hrg.1.congr hps han hatt
+    generalize abort L r.2 = as at haf hap hps han hat hfa hs ⊢
+    have htt2 : TTA2 TTok as.2 := hrg.1.congr hps han
     split
     · next hab1 =>
       refine ⟨htt2, fun s' h => ?_, fun _ _ _ _ h => by cases h⟩
@@ -138,13 +62,13 @@ theorem aspiration_score (c : Comp σ π) (L : Limits) {Good : Board → Prop} {
       · next hin =>
         refine ⟨htt2, (fun s' h => by cases h), fun al be sa s' h hA => ?_⟩
         cases h
-        have hAr : r.2.nmpOut = false := by rw [← han]; exact hA
-        have hw' := hw (hab.1.mono.a_back hAr)
+        have hAr : r.2.ttOut = false := by rw [← han]; exact hA
+        have hw' := hw (hab.1.mono.t_back hAr)
         have hrab : r.2.aborted = false := (hfa hna').2
         simp only [Bool.and_eq_true, Bool.not_eq_true', decide_eq_false_iff_not] at hin
         have hgt : alpha < r.1 := Int.not_le.1 hin.1
         have hlt : r.1 < beta := Int.not_le.1 hin.2
-        refine ⟨(hrg.2 hrab hAr).inR (Int.le_refl 0), fun h => by rw [hap]; exact hrow h, fun h1 => ?_, fun h1 hf => ?_⟩
+        refine ⟨hrg.2 hrab hAr, fun h => by rw [hap]; exact hrow h, fun h1 => ?_, fun h1 hf => ?_⟩
         · rcases hroot hw' h1 hrab hAr hgt hlt with h | h
           · exact Or.inl (by rw [hap]; exact h)
           · exact Or.inr h
@@ -158,15 +82,15 @@ theorem aspiration_score (c : Comp σ π) (L : Limits) {Good : Board → Prop} {
         exact this
 
 /-- what `idLoop` establishes about scores, tables, the null move and final roots (guarded). -/
-theorem idLoop_score (c : Comp σ π) (L : Limits) (clock : Clock) {Good : Board → Prop} {TTok : σ → Prop} {μ : Board → Nat}
+theorem idLoop_score2 (c : Comp σ π) (L : Limits) (clock : Clock) {Good : Board → Prop} {TTok : σ → Prop} {μ : Board → Nat}
     (hl : Laws c Good) (sl : ScoreLaws c Good TTok μ) (fuel : Nat) (b : Board) (hg : Good b) (hd : 1 ≤ L.depth) :
     ∀ (n : Nat) (idD : Int) (v : IDVars) (s : St σ), s.board = b → 0 ≤ idD → (n : Int) + idD = 64 →
-      TTA TTok t0 s → (s.nmpOut = false → RootWin v.alpha v.beta) → idSane c L clock fuel n idD v s →
-      (s.nmpOut = false → 2 ≤ idD → v.move ≠ 0 ∨ Final c.keys b) →
-      (Final c.keys b → s.nmpOut = false → v.move = 0 ∧ (2 ≤ idD → FinalScore c.keys b v.score)) →
-      TTA TTok t0 (idLoop c L clock fuel n idD v s).st ∧
-      ((idLoop c L clock fuel n idD v s).st.nmpOut = false → (idLoop c L clock fuel n idD v s).move = 0 → Final c.keys b) ∧
-      (Final c.keys b → (idLoop c L clock fuel n idD v s).st.nmpOut = false →
+      TTA2 TTok s → (s.ttOut = false → RootWin v.alpha v.beta) → idSane c L clock fuel n idD v s →
+      (s.ttOut = false → 2 ≤ idD → v.move ≠ 0 ∨ Final c.keys b) →
+      (Final c.keys b → s.ttOut = false → v.move = 0 ∧ (2 ≤ idD → FinalScore c.keys b v.score)) →
+      TTA2 TTok (idLoop c L clock fuel n idD v s).st ∧
+      ((idLoop c L clock fuel n idD v s).st.ttOut = false → (idLoop c L clock fuel n idD v s).move = 0 → Final c.keys b) ∧
+      (Final c.keys b → (idLoop c L clock fuel n idD v s).st.ttOut = false →
         (idLoop c L clock fuel n idD v s).st.aborted = false →
         (idLoop c L clock fuel n idD v s).move = 0 ∧ FinalScore c.keys b (idLoop c L clock fuel n idD v s).score) := by
   intro n
@@ -203,7 +127,7 @@ theorem idLoop_score (c : Comp σ π) (L : Limits) (clock : Clock) {Good : Board
         have e1 : decide (idD < maxPlies) = false := decide_eq_false (by unfold maxPlies; omega)
         simp [e1]
       have hasp := aspiration_spec c L hl fuel idD fuel v.alpha v.beta 1 s (by rw [hb]; exact hg) htt.1
-      have hsc := aspiration_score c L hl sl fuel idD fuel v.alpha v.beta 1 s (by rw [hb]; exact hg) htt hw hs.1
+      have hsc := aspiration_score2 c L hl sl fuel idD fuel v.alpha v.beta 1 s (by rw [hb]; exact hg) htt hw hs.1
       have hs2 := hs.2
       generalize aspiration c L fuel idD fuel v.alpha v.beta 1 s = a at hasp hsc hs2 ⊢
       cases a with
@@ -234,13 +158,13 @@ theorem idLoop_score (c : Comp σ π) (L : Limits) (clock : Clock) {Good : Board
         rw [hb] at hline
         have hb' : s'.board = b := hf.board.trans hb
         obtain ⟨htt', _, hokc⟩ := hsc
-        have hback : s'.nmpOut = false → s.nmpOut = false := fun h => hf.mono.a_back h
+        have hback : s'.ttOut = false → s.ttOut = false := fun h => hf.mono.t_back h
         have hokc' := fun hA => hokc al be sample s' rfl hA
         rw [hb] at hokc'
         have hact : s'.pv.active = s'.pv.row 0 := rfl
         simp only [hact] at hs2 ⊢
         -- under `Final` the variation is empty, so the move stays null
-        have hactF : Final c.keys b → s'.nmpOut = false → s'.pv.row 0 = [] := by
+        have hactF : Final c.keys b → s'.ttOut = false → s'.pv.row 0 = [] := by
           intro hfb hA
           obtain ⟨_, hrow0, _, hfs⟩ := hokc' hA
           by_cases hz : idD = 0
@@ -251,7 +175,7 @@ theorem idLoop_score (c : Comp σ π) (L : Limits) (clock : Clock) {Good : Board
           refine ⟨htt'.congr rfl rfl, fun _ hmv => absurd hmv hsa'.1, fun hfb hA _ => ?_⟩
           exfalso
           apply hsa'.1
-          have hA' : s'.nmpOut = false := hA
+          have hA' : s'.ttOut = false := hA
           rw [hactF hfb hA']
           exact (hfin hfb (hback hA')).1
         · next hnsa =>
@@ -267,7 +191,7 @@ theorem idLoop_score (c : Comp σ π) (L : Limits) (clock : Clock) {Good : Board
             exact rootWin_first (hokc' hA).1 sl.window
           · exact hs2
           · intro hA h2
-            have hA' : s'.nmpOut = false := hA
+            have hA' : s'.ttOut = false := hA
             obtain ⟨_, _, hro, _⟩ := hokc' hA'
             rcases hro (by omega) with h | h
             · left
@@ -279,29 +203,42 @@ theorem idLoop_score (c : Comp σ π) (L : Limits) (clock : Clock) {Good : Board
                 exact hl.gen_ne_zero _ _ hg (mem_playable.1 (legalLine_head hline)).1
             · exact Or.inr h
           · intro hfb hA
-            have hA' : s'.nmpOut = false := hA
+            have hA' : s'.ttOut = false := hA
             obtain ⟨_, _, _, hfs⟩ := hokc' hA'
             refine ⟨?_, fun h2 => (hfs (by omega) hfb).1⟩
             rw [hactF hfb hA']
             exact (hfin hfb (hback hA')).1
 
-theorem go_score (c : Comp σ π) (L : Limits) (clock : Clock) {Good : Board → Prop} {TTok : σ → Prop} {μ : Board → Nat}
+theorem go_score2 (c : Comp σ π) (L : Limits) (clock : Clock) {Good : Board → Prop} {TTok : σ → Prop} {μ : Board → Nat}
     (hl : Laws c Good) (sl : ScoreLaws c Good TTok μ) (fuel : Nat) (e : Engine σ) (b : Board) (hg : Good b) (nodes0 : Int)
     (hd : 1 ≤ L.depth) (htt : TTok e.ps) (hs : GoSane c L clock fuel e b nodes0)
-    (hA : (go c L clock fuel e b nodes0).st.nmpOut = false) :
+    (hA : (go c L clock fuel e b nodes0).st.ttOut = false) :
     TTok (go c L clock fuel e b nodes0).st.ps ∧
     ((go c L clock fuel e b nodes0).move = 0 → Final c.keys b) ∧
     (Final c.keys b → (go c L clock fuel e b nodes0).st.aborted = false →
       (go c L clock fuel e b nodes0).move = 0 ∧ FinalScore c.keys b (go c L clock fuel e b nodes0).score) := by
-  have h := idLoop_score c L clock hl sl fuel b hg hd 64 0
+  have h := idLoop_score2 c L clock hl sl fuel b hg hd 64 0
     { alpha := -Inf - 1, beta := Inf + 1, score := 0, move := 0, ponder := 0, reads := 0, ppolls := 0, out := [] }
-    (goInit L e b nodes0) rfl (Int.le_refl 0) (by decide) (t0 := false) ⟨sl.tt_ok _ htt, fun _ => ⟨htt, fun _ => rfl⟩⟩
-    (fun _ => rootWin_init) hs
+    (goInit L e b nodes0) rfl (Int.le_refl 0) (by decide) ⟨sl.tt_ok _ htt, fun _ => htt⟩ (fun _ => rootWin_init) hs
     (fun _ h => absurd h (by decide)) (fun _ _ => ⟨rfl, fun h => absurd h (by decide)⟩)
   have hA' : (idLoop c L clock fuel 64 0
     { alpha := -Inf - 1, beta := Inf + 1, score := 0, move := 0, ponder := 0, reads := 0, ppolls := 0, out := [] }
-    (goInit L e b nodes0)).st.nmpOut = false := hA
-  exact ⟨sl.tt_nextGen _ (h.1.2 hA').1, h.2.1 hA', fun hf hna => h.2.2 hf hA' hna⟩
+    (goInit L e b nodes0)).st.ttOut = false := hA
+  exact ⟨sl.tt_nextGen _ (h.1.2 hA'), h.2.1 hA', fun hf hna => h.2.2 hf hA' hna⟩
+
+omit [PsInv σ] in
+/-- without fuel every search function gives up at once: no table store happens, the flag stays down
+    (used for the non-vacuity examples). -/
+theorem go_ttOut_nofuel (c : Comp σ π) (L : Limits) (clock : Clock) (e : Engine σ) (b : Board) (nodes0 : Int) :
+    (go c L clock 0 e b nodes0).st.ttOut = false := by
+  have h : ∀ (v : IDVars) (s : St σ), s.ttOut = false → (idLoop c L clock 0 64 0 v s).st.ttOut = false := by
+    intro v s hs
+    show (idLoop c L clock 0 (63 + 1) 0 v s).st.ttOut = false
+    simp only [idLoop, aspiration]
+    split
+    · exact hs
+    · split <;> exact hs
+  exact h _ _ rfl
 
 end Search
 end ChessVerif
